@@ -1,5 +1,5 @@
 (* Property C01 — compiled dense logic network = eval-mode model (counts per class / 0-1 outputs). *)
-From Coq Require Import ZArith List Bool Arith String.
+From Coq Require Import String ZArith List Bool Arith.
 From TLX Require Import Model.Bits Model.CLang Model.Netlist Model.GenDense Model.Wrapper Model.Host.
 From TLX Require Import Proofs.CLangFacts Proofs.GenDenseFacts Proofs.WrapperFacts Proofs.C01Facts Proofs.C04Facts.
 From TLX Require Import Gen.GateCode Gen.WrapperParams.
